@@ -77,7 +77,7 @@ _GRAY_STEPS_256 = [
     0x6C,
     0x76,
     0x80,
-    0x84,
+    0x8A,
     0x94,
     0x9E,
     0xA8,
@@ -312,6 +312,8 @@ def _color_desc_256(num: int) -> str:
     'g7'
     >>> _color_desc_256(234)
     'g11'
+    >>> _color_desc_256(245)
+    'g54'
 
     """
     if not 0 <= num < 256:
